@@ -101,11 +101,17 @@ func encoderHeadTable(e *Env) map[int]string {
 			wantAI = "conv(param:n)"
 		}
 		key := "encodeTypedUint:head(n=" + n + ")"
+		// the first value the code (right or wrong) gives k follow bytes: what
+		// the deterministic checker's lower limits must agree with
+		if len(nf) == 1 && strings.HasPrefix(nf[0], "const:") {
+			if k, err := strconv.Atoi(strings.TrimPrefix(nf[0], "const:")); err == nil {
+				if _, ok := lowest[k]; !ok {
+					lowest[k] = n
+				}
+			}
+		}
 		if len(ai) == 1 && len(nf) == 1 && ai[0] == wantAI && nf[0] == "const:"+strconv.Itoa(want.nfollow) {
 			e.R.OK("TABLE", key, e.P.Pos(fn.Pos()), fmt.Sprintf("ai=%s nfollow=%d as RFC 8949 prescribes (shortest form)", want.ai, want.nfollow))
-			if _, ok := lowest[want.nfollow]; !ok {
-				lowest[want.nfollow] = n
-			}
 		} else {
 			e.R.Fail("TABLE", key, e.P.Pos(fn.Pos()), "head chosen for this value is not the shortest form of RFC 8949",
 				fmt.Sprintf("got ai=%v nfollow=%v", ai, nf), fmt.Sprintf("want ai=%s nfollow=%d", wantAI, want.nfollow))
